@@ -24,11 +24,11 @@ const T0: TableDefinition<u64, &[u8]> = TableDefinition::new("t0");
 const T1: TableDefinition<u64, &[u8]> = TableDefinition::new("t1");
 const M0: MultimapTableDefinition<u64, u64> = MultimapTableDefinition::new("m0");
 
-fn tdef(i: usize) -> TableDefinition<'static, u64, &'static [u8]> {
+pub(crate) fn tdef(i: usize) -> TableDefinition<'static, u64, &'static [u8]> {
     if i == 0 { T0 } else { T1 }
 }
 
-fn value_of(len: usize, seed: u64) -> Vec<u8> {
+pub(crate) fn value_of(len: usize, seed: u64) -> Vec<u8> {
     (0..len).map(|i| ((i as u64 * 31 + seed) & 0xff) as u8).collect()
 }
 
@@ -58,7 +58,7 @@ impl Model {
 }
 
 /// reads everything through a read transaction
-fn read_all(rt: &ReadTransaction) -> Result<Model, String> {
+pub(crate) fn read_all(rt: &ReadTransaction) -> Result<Model, String> {
     let mut m = Model::default();
     for i in 0..2 {
         match rt.open_table(tdef(i)) {
@@ -184,7 +184,7 @@ pub struct PageState {
 
 // ---------------------------------------------------------------------------------- world
 
-struct Reader {
+pub(crate) struct Reader {
     rt: ReadTransaction,
     expect: Model,
     root: VerifRoot,
@@ -193,7 +193,7 @@ struct Reader {
     fp: u64,
 }
 
-struct Sp {
+pub(crate) struct Sp {
     sp: Savepoint,
     expect: Model,
     /// transaction id the savepoint pins
@@ -204,31 +204,31 @@ struct Sp {
 }
 
 #[derive(Clone)]
-struct Psp {
-    expect: Model,
-    root: VerifRoot,
-    pin_id: u64,
-    fp: u64,
+pub(crate) struct Psp {
+    pub(crate) expect: Model,
+    pub(crate) root: VerifRoot,
+    pub(crate) pin_id: u64,
+    pub(crate) fp: u64,
 }
 
 pub struct World {
-    cfg: Cfg,
-    backend: MemBackend,
-    db: Option<Database>,
-    committed: Model,
-    readers: Vec<Reader>,
-    sps: Vec<Sp>,
+    pub(crate) cfg: Cfg,
+    pub(crate) backend: MemBackend,
+    pub(crate) db: Option<Database>,
+    pub(crate) committed: Model,
+    pub(crate) readers: Vec<Reader>,
+    pub(crate) sps: Vec<Sp>,
     /// persistent savepoint id -> contents at creation, captured root, pinned transaction id
-    psp: BTreeMap<u64, Psp>,
+    pub(crate) psp: BTreeMap<u64, Psp>,
     /// allocated page count right after the initial commits, for the "returns to level" check
-    step_no: usize,
+    pub(crate) step_no: usize,
     #[allow(dead_code)]
-    focus: String,
+    pub(crate) focus: String,
     /// commit points since (and including) the last one known to be durable: a crash must
     /// recover to one of them (never older than the last durable, never newer than the last requested)
-    window: Vec<(Model, BTreeMap<u64, Psp>)>,
+    pub(crate) window: Vec<(Model, BTreeMap<u64, Psp>)>,
     /// (durable transaction id, fingerprint of its data tree, of its system tree)
-    durable_fp: Option<(u64, u64, u64)>,
+    pub(crate) durable_fp: Option<(u64, u64, u64)>,
 }
 
 fn dur_name(d: Durability) -> &'static str {
@@ -240,18 +240,18 @@ fn dur_name(d: Durability) -> &'static str {
 }
 
 impl World {
-    fn new(cfg: Cfg, focus: &str) -> Self {
+    pub(crate) fn new(cfg: Cfg, focus: &str) -> Self {
         let backend = MemBackend::fresh();
         let db = open_db(backend.clone(), &cfg).expect("create database");
         World { cfg, backend, db: Some(db), committed: Model::default(), readers: vec![], sps: vec![], psp: BTreeMap::new(), step_no: 0, focus: focus.to_string(), window: vec![(Model::default(), BTreeMap::new())], durable_fp: None }
     }
 
-    fn db(&self) -> &Database {
+    pub(crate) fn db(&self) -> &Database {
         self.db.as_ref().unwrap()
     }
 
     /// the abstract page-ownership state from the hooks
-    fn page_state(&self, snap: &VerifSnapshot) -> Result<PageState, String> {
+    pub(crate) fn page_state(&self, snap: &VerifSnapshot) -> Result<PageState, String> {
         let rmp = snap.mem.region_max_pages;
         let owners = self.db().verif_owners().map_err(|e| format!("verif_owners: {e:?}"))?;
         let mut alloc = vec![];
@@ -282,7 +282,7 @@ impl World {
 
     /// S: every allocated page has exactly one owner; pins lie inside the allocated set;
     /// writes the `hist state` line for the Lean model
-    fn check_state(&mut self, out: &mut Out, after: &str) {
+    pub(crate) fn check_state(&mut self, out: &mut Out, after: &str) {
         let snap = self.db().verif_snapshot();
         if snap.tracker.live_write_transaction.is_some() || !snap.mem.allocators_loaded {
             return;
@@ -409,7 +409,7 @@ impl World {
     }
 
     /// S for C02: every live reader and savepoint still shows the contents captured at its start
-    fn check_pinned_contents(&mut self, out: &mut Out, after: &str) {
+    pub(crate) fn check_pinned_contents(&mut self, out: &mut Out, after: &str) {
         for r in &self.readers {
             match read_all(&r.rt) {
                 Ok(m) => {
@@ -423,7 +423,7 @@ impl World {
         }
     }
 
-    fn check_committed_contents(&mut self, out: &mut Out, after: &str) {
+    pub(crate) fn check_committed_contents(&mut self, out: &mut Out, after: &str) {
         match self.db().begin_read().map_err(|e| format!("{e:?}")).and_then(|rt| read_all(&rt)) {
             Ok(m) => {
                 if m != self.committed {
@@ -437,7 +437,7 @@ impl World {
     // ------------------------------------------------------------------ steps
 
     /// a write transaction described by `spec`; returns the result tag
-    fn step_txn(&mut self, spec: &TxnSpec, out: &mut Out) -> String {
+    pub(crate) fn step_txn(&mut self, spec: &TxnSpec, out: &mut Out) -> String {
         let mut work = self.committed.clone();
         let mut new_sps: Vec<Sp> = vec![];
         let mut created_psp: Vec<(u64, Psp)> = vec![];
@@ -715,7 +715,7 @@ impl World {
         result
     }
 
-    fn step_begin_read(&mut self, out: &mut Out) -> String {
+    pub(crate) fn step_begin_read(&mut self, out: &mut Out) -> String {
         match self.db().begin_read() {
             Ok(rt) => {
                 let snap = self.db().verif_snapshot();
@@ -736,7 +736,7 @@ impl World {
         }
     }
 
-    fn step_list_psp(&mut self, out: &mut Out) {
+    pub(crate) fn step_list_psp(&mut self, out: &mut Out) {
         let db = self.db.as_ref().unwrap();
         if !self.readers.is_empty() || !self.sps.is_empty() {
             // keeps histories comparable; listing needs a write transaction
@@ -756,11 +756,21 @@ impl World {
         }
     }
 
-    fn step_reopen(&mut self, out: &mut Out) -> String {
+    pub(crate) fn step_reopen(&mut self, out: &mut Out) -> String {
         self.readers.clear();
         self.sps.clear();
         self.db = None;
-        self.backend = MemBackend::new(self.backend.data.clone());
+        // the new instance continues the recording (if any) of the one that was just closed
+        let old = self.backend.clone();
+        self.backend = MemBackend::new(old.data.clone());
+        self.backend.mon.record.store(old.mon.record.load(std::sync::atomic::Ordering::SeqCst), std::sync::atomic::Ordering::SeqCst);
+        self.backend.mon.log.lock().unwrap().append(&mut old.mon.log.lock().unwrap());
+        for x in old.mon.contract_violations.lock().unwrap().iter() {
+            out.oracle_fail(format!("backend-contract|{x}"));
+        }
+        if old.mon.closes.load(std::sync::atomic::Ordering::SeqCst) != 1 {
+            out.oracle_fail(format!("backend-contract|close-count|close() called {} times for a dropped Database", old.mon.closes.load(std::sync::atomic::Ordering::SeqCst)));
+        }
         match open_db(self.backend.clone(), &self.cfg) {
             Ok(db) => {
                 self.db = Some(db);
@@ -776,7 +786,7 @@ impl World {
 
     /// reopen from the bytes as they are now without closing (all issued writes persisted):
     /// the open path has to repair (no clean-shutdown record)
-    fn step_crash_reopen(&mut self, out: &mut Out) -> String {
+    pub(crate) fn step_crash_reopen(&mut self, out: &mut Out) -> String {
         self.readers.clear();
         self.sps.clear();
         let image = self.backend.snapshot();
@@ -818,7 +828,7 @@ impl World {
         }
     }
 
-    fn step_compact(&mut self, out: &mut Out) -> String {
+    pub(crate) fn step_compact(&mut self, out: &mut Out) -> String {
         let len_before = self.backend.data.lock().unwrap().len();
         let snap = self.db().verif_snapshot();
         let user_pins = !self.readers.is_empty();
@@ -848,7 +858,7 @@ impl World {
         }
     }
 
-    fn step_check_integrity(&mut self, out: &mut Out) -> String {
+    pub(crate) fn step_check_integrity(&mut self, out: &mut Out) -> String {
         if !self.readers.is_empty() || self.sps.iter().any(|s| s.persistent_id.is_none()) {
             return "skipped".into();
         }
@@ -927,7 +937,7 @@ pub enum Step {
     ListPsp,
 }
 
-fn gen_ops(rng: &mut Rng, page: usize, n: usize) -> Vec<Op> {
+pub(crate) fn gen_ops(rng: &mut Rng, page: usize, n: usize) -> Vec<Op> {
     let mut v = vec![];
     for _ in 0..n {
         let t = rng.below(2) as usize;
@@ -949,7 +959,7 @@ fn gen_ops(rng: &mut Rng, page: usize, n: usize) -> Vec<Op> {
     v
 }
 
-fn gen_history(rng: &mut Rng, focus: &str, thorough: bool, page: usize) -> Vec<Step> {
+pub(crate) fn gen_history(rng: &mut Rng, focus: &str, thorough: bool, page: usize) -> Vec<Step> {
     let n = rng.range(8, if thorough { 60 } else { 30 }) as usize;
     let mut steps = vec![];
     // start with some data
@@ -1017,7 +1027,7 @@ fn gen_history(rng: &mut Rng, focus: &str, thorough: bool, page: usize) -> Vec<S
     steps
 }
 
-fn describe(step: &Step) -> String {
+pub(crate) fn describe(step: &Step) -> String {
     match step {
         Step::Txn(t) => format!(
             "txn dur={} 2pc={} qr={} sp={} ops={} end={:?}",
@@ -1033,7 +1043,7 @@ fn describe(step: &Step) -> String {
 }
 
 impl World {
-    fn run_step(&mut self, step: &Step, out: &mut Out) -> bool {
+    pub(crate) fn run_step(&mut self, step: &Step, out: &mut Out) -> bool {
         self.step_no += 1;
         let desc = describe(step);
         out.count(&format!("step_{}", desc.split(|c| c == ' ' || c == '(').next().unwrap()));
